@@ -199,6 +199,21 @@ def lu_growth(Af):
     return g / max(_maxabs(Af), F(1, 10 ** 300))
 
 
+def float_plain_lu_zero_pivot(Af):
+    """plain Doolittle elimination carried out in floating point meets a pivot that is exactly 0.0 (then lu_solve of the
+    pinned tree raises; the known finding is about the other breakdown cases, where rounding leaves a tiny non-zero pivot)"""
+    A = [[float(x) for x in r] for r in Af]
+    n = len(A)
+    for c in range(n):
+        if A[c][c] == 0.0:
+            return True
+        for r in range(c + 1, n):
+            f = A[r][c] / A[c][c]
+            for k in range(c, n):
+                A[r][k] -= f * A[c][k]
+    return False
+
+
 def matrix_features(Af, family, singular):
     perm, swaps, mp = apriori_pivot(Af)
     g, gp = lu_growth(Af), lu_growth(mp)
@@ -212,6 +227,7 @@ def matrix_features(Af, family, singular):
                 plain_lu_unstable=g is not None and g > 10 ** 6,
                 pivoted_lu_unstable=gp is not None and gp > 10 ** 6,
                 plain_lu_breaks_down=g is None or g > 10 ** 6,
+                plain_lu_float_zero_pivot=float_plain_lu_zero_pivot(Af),
                 pivoted_lu_breaks_down=gp is None or gp > 10 ** 6,
                 integer=all(x.denominator == 1 for r in Af for x in r))
 
